@@ -439,6 +439,14 @@ class InterpolatedPredictionStrategy(DefaultPredictionStrategy):
         train_interp_indices = test_train_covar.right_interp_indices
         train_interp_values = test_train_covar.right_interp_values
         base_linear_op = test_train_covar.base_linear_op
+        # The cache consists of training-side terms only and is re-used for later test inputs:
+        # drop the (leading) batch dimensions that only the test inputs of this call have
+        num_batch_dims = train_train_covar_inv_root.dim() - 2
+        while train_interp_indices.dim() - 2 > num_batch_dims:
+            train_interp_indices = train_interp_indices[0]
+            train_interp_values = train_interp_values[0]
+        while base_linear_op.dim() - 2 > num_batch_dims:
+            base_linear_op = base_linear_op[0]
         base_size = base_linear_op.size(-1)
         res = base_linear_op.matmul(
             left_t_interp(train_interp_indices, train_interp_values, train_train_covar_inv_root, base_size)
